@@ -189,7 +189,17 @@ fn gen_value(rng: &mut Rng, cfg: &GenCfg, depth: usize, budget: &mut usize) -> V
                 if *budget == 0 {
                     break;
                 }
-                let k = gen_name(rng, cfg, &m);
+                // below the top level the JWT layer's registered names are ordinary member names
+                let k = if rng.chance(1, 12) {
+                    let k = rng.pick(&["iss", "iat", "nbf", "exp", "cnf", "aud", "sub", "jti", "typ", "alg"]).to_string();
+                    if m.contains_key(&k) {
+                        gen_name(rng, cfg, &m)
+                    } else {
+                        k
+                    }
+                } else {
+                    gen_name(rng, cfg, &m)
+                };
                 let v = gen_value(rng, cfg, depth + 1, budget);
                 m.insert(k, v);
             }
